@@ -250,6 +250,7 @@ def run(tier):
     if not quick:
         mcs += [({"atp": 5, "gtp": 2, "nadh": 3, "maxdebt": 3, "ih": 1}, amounts), ({"atp": 0, "gtp": 0, "nadh": 2, "maxdebt": 2, "ih": 2}, amounts),
                 ({"atp": 2, "gtp": 0, "nadh": 0, "maxdebt": 0, "ih": 0}, amounts)]
+    alldead = None
     for c, am in mcs:
         cfg = tlc.cfg_text(spec="Spec", constants=constants(c, am, prios), invariants=["NonNeg", "BoundedSpend"],
                            properties=["AllStepsOK"], constraints=["DebtBound"], view="MCView")
@@ -259,8 +260,9 @@ def run(tier):
             raise base.MachineryError("specification Metabolism violates its own P-layer: %s\n%s" % (r["violated"], r["out"][-2000:]))
         dead = tlc.dead_actions(r, ["Refused", "Direct", "Consume", "Insufficient", "Regenerate", "TransferOut", "TransferIn", "Convert",
                                     "EnterDormancy", "ExitDormancy", "ApplyInterest", "Reset"])
-        if dead:
-            raise base.MachineryError("vacuity: actions never taken in MC: %s" % dead)
+        alldead = set(dead) if alldead is None else alldead & set(dead)      # degenerate instances legitimately disable some actions
+    if alldead:
+        raise base.MachineryError("vacuity: actions never taken in any MC instance: %s" % sorted(alldead))
     # ---- leg 2: implementation graph -> TLC
     depth = 6 if quick else 9
     jobs = [(c, amounts, prios, depth, base.seed()) for c in configs(tier)]
